@@ -118,6 +118,7 @@ def run_block(args):
             v = dict(v)
             v["index"] = index
             v["run_seed"] = rs
+            v["block"] = [start, index, tier, seed]
             out["violations"].append(v)
         if index < 3:
             out["samples"].append([index, mod.sample(plan)])
@@ -183,13 +184,18 @@ def plan_size(plan):
 # ---------------------------------------------------------------------------
 # replay files
 
-def write_replay(pid, violation, plan, trace=None):
+def write_replay(pid, violation, plan, trace=None, plans_before=None,
+                 suffix=""):
     os.makedirs(REPLAY_DIR, exist_ok=True)
-    path = os.path.join(REPLAY_DIR, "%s-%08x.json" % (
-        pid, violation.get("run_seed", 0)))
+    path = os.path.join(REPLAY_DIR, "%s-%08x%s.json" % (
+        pid, violation.get("run_seed", 0), suffix))
     doc = {"property": pid, "signature": violation["sig"],
            "key": violation.get("key"), "detail": violation.get("detail"),
            "run_seed": violation.get("run_seed"), "plan": plan}
+    if plans_before:
+        doc["plans_before"] = plans_before
+        doc["note"] = ("the violation depends on state left in the process "
+                       "by the preceding runs listed in plans_before")
     with open(path, "w") as f:
         json.dump(doc, f, indent=1, sort_keys=True, default=str)
     return path
@@ -199,6 +205,13 @@ def replay(pid, path, quiet=False):
     with open(path) as f:
         doc = json.load(f)
     mod = load_prop(pid)
+    for k, earlier in enumerate(doc.get("plans_before") or ()):
+        # the violation needs state left behind by earlier runs in the same
+        # process (a process-wide cache, a module-level registry ...)
+        r0 = guarded_execute(mod, earlier)
+        if not quiet:
+            print("  | preceding run %d executed (%d violations)"
+                  % (k, len(r0.get("violations", []))))
     res = guarded_execute(mod, doc["plan"])
     if "harness_error" in res:
         print("HARNESS-ERROR during replay\n" + res["harness_error"])
@@ -228,6 +241,49 @@ def confirm_replay_fresh(pid, path):
     except subprocess.TimeoutExpired:
         return False, "timeout"
     return p.returncode == 1, (p.stdout + p.stderr)[-2000:]
+
+
+def history_replay(pid, mod, v, out):
+    """Replay file made of the violating plan plus the plans that ran before
+    it in the same worker block; minimised by dropping earlier plans, every
+    attempt in a fresh interpreter.  None when even that does not reproduce."""
+    start, index, tier, seed = v.get("block") or (None, None, None, None)
+    if start is None or index <= start:
+        return None
+    before = []
+    for i in range(start, index):
+        rs = run_seed(seed, pid, tier, i)
+        try:
+            pl = mod.generate(random.Random(rs), tier, i)
+        except Exception:
+            continue
+        pl["run_seed"] = rs
+        before.append(pl)
+
+    def attempt(plans):
+        path = write_replay(pid, v, v["plan"], plans_before=plans,
+                            suffix="-history")
+        ok, _tail = confirm_replay_fresh(pid, path)
+        return ok, path
+    ok, path = attempt(before)
+    if not ok:
+        return None
+    deadline = time.time() + 120
+    chunk = max(1, len(before) // 2)
+    while chunk >= 1 and time.time() < deadline:
+        i = 0
+        while i < len(before) and time.time() < deadline:
+            cand = before[:i] + before[i + chunk:]
+            ok, _p = attempt(cand)
+            if ok:
+                before = cand
+            else:
+                i += chunk
+        chunk //= 2
+    ok, path = attempt(before)
+    out("violation needs %d preceding run(s) in the same process (state "
+        "carried across runs); replay file lists them" % len(before))
+    return path if ok else None
 
 
 # ---------------------------------------------------------------------------
@@ -384,9 +440,14 @@ def run_check(pid, tier, seed, workers=None, runs=None, wall=None,
             replay_path = write_replay(pid, v, v["plan"])
             ok2, tail2 = confirm_replay_fresh(pid, replay_path)
             if not ok2:
-                out("HARNESS-ERROR violation does not replay in a fresh "
-                    "interpreter:\n" + tail2)
-                status = 2
+                # does it need what earlier runs of the same worker left
+                # behind in the process?
+                replay_path = history_replay(pid, mod, v, out)
+                if replay_path is None:
+                    out("HARNESS-ERROR violation does not replay in a fresh "
+                        "interpreter, neither alone nor after the runs that "
+                        "preceded it in its worker:\n" + tail2)
+                    status = 2
     if status == 2:
         for he in agg["harness_errors"][:3]:
             out("HARNESS-ERROR run index %s seed %s\n%s"
